@@ -228,17 +228,20 @@ func checkField(queryValue, fieldValue interface{}) bool {
 			return true
 		}
 	case []interface{}:
+		if len(v) == 0 {
+			return false
+		}
 		elem := v[0]
 		switch e := elem.(type) {
 		case int:
 			for _, val := range v {
-				if checkIntMatch(int64(val.(int)), fieldNumList) {
+				if i, ok := val.(int); ok && checkIntMatch(int64(i), fieldNumList) {
 					return true
 				}
 			}
 		case float64:
 			for _, val := range v {
-				if checkFloatMatch(val.(float64), fieldFloatList) {
+				if f, ok := val.(float64); ok && checkFloatMatch(f, fieldFloatList) {
 					return true
 				}
 			}
